@@ -58,8 +58,8 @@ func (c *TwoRunCase) coq() string {
 	for i, cd := range cands {
 		cs[i] = fmt.Sprintf("(Build_cand %s %s %s)", t.reqList(cd.Analysis.Reqs), t.fvList(cd.Analysis.All), t.patch(cd.Reconstructed))
 	}
-	return fmt.Sprintf("(Build_tcase %s (%d)%%Z %v %s %v %v\n      %s %s\n      %s\n      %s\n      %s %s\n      %s %s %s %s)",
-		t.opts(o.Ignore, o.Explicit, o.DevDeps), o.MaxUpgrades, o.NoIntroduce, t.mgmt(), tr.Universe.NameSafe, c.OK,
+	return fmt.Sprintf("(Build_tcase %s (%d)%%Z %v %s %v\n      %s %s\n      %s\n      %s\n      %s %s\n      %s %s %s %s)",
+		t.opts(o.Ignore, o.Explicit, o.DevDeps), o.MaxUpgrades, o.NoIntroduce, t.mgmt(), c.OK,
 		t.reqList(a0.Reqs), t.fvList(a0.All),
 		t.patchList(tr.AllPatches),
 		coqfmt.List(cs),
@@ -88,7 +88,7 @@ func main() {
 	side := flag.String("jsonl", "", "JSONL side file")
 	nTwo := flag.Int("tworun", 200, "two-run cases (mixed options)")
 	nExp := flag.Int("explicit", 60, "two-run cases with an explicit vulnerability list")
-	nOdd := flag.Int("odd", 20, "two-run cases with package names outside the writer's path-safe domain")
+	nOdd := flag.Int("odd", 20, "two-run cases with package names that need escaping in a gjson path (dots, wildcards)")
 	nCon := flag.Int("construct", 300, "synthetic ConstructPatches cases (structured)")
 	nWild := flag.Int("wild", 150, "synthetic ConstructPatches cases (duplicates, removals, odd types)")
 	nCho := flag.Int("choose", 300, "synthetic choosePatches cases")
